@@ -354,6 +354,71 @@ def rule_f(ctx):
     rule_g(ctx)
 
 
+def rule_gate_scope(ctx):
+    """Only new requests are subject to the lease, and only on a side that asked for leases: no other frame is held
+    or consumes an allowance; nothing is held unless `honor_lease` is on (an unsolicited LEASE cannot stall requests)."""
+    rep = ctx.report
+    slots = ctx.slots
+    m = model(ctx)
+    n_frames = 0
+    n_held = 0
+    for h in m.handlers:
+        ok = True
+        detail = ''
+        where = h
+        seen = 0
+        for en in m.entries(h):
+            for p in m.run(en, None):
+                for cname, complete, ev in m.emitted(p):
+                    if cname == '?':
+                        continue
+                    seen += 1
+                    # innermost-to-outermost: the first socket-level function active at the enqueue
+                    stack = []
+                    for e in p.events:
+                        if e.seq >= ev.seq:
+                            break
+                        if e.kind == 'enter':
+                            stack.append(e)
+                        elif e.kind == 'exit' and stack:
+                            stack.pop()
+                    sock = [e for e in stack if e.data['callee'].cls is not None and
+                            e.data['callee'].cls.is_subclass_of(slots.RSocketBase)]
+                    s0 = sock[0].seq if sock else ev.seq
+                    consults = [e for e in p.events if s0 < e.seq < ev.seq and (
+                        (e.kind == 'call' and e.data.get('name') == 'is_request_allowed') or
+                        (e.kind == 'enter' and e.data['callee'].name == 'is_request_allowed'))]
+                    held = is_enq_lease(ev, slots)
+                    if cname not in tables.REQUEST_FRAME_INTERACTION:
+                        if held:
+                            ok, detail, where = False, 'a %s frame can be held in the lease queue (%s)' % (
+                                cname, en.name), (ev.func.file, ev.line)
+                        elif consults:
+                            ok, detail, where = False, 'sending a %s frame consumes a lease allowance (%s)' % (
+                                cname, en.name), (ev.func.file, ev.line)
+                    elif held:
+                        n_held += 1
+                        hon = [c for c in p.events if s0 < c.seq < ev.seq and c.kind == 'cond' and
+                               c.data['key'][0] == 'truth' and '_honor_lease' in repr(c.data['key'])]
+                        if not hon or hon[-1].data['value'] is not True:
+                            ok, detail, where = False, ('a %s is held although this side never asked for leases: an '
+                                                        'unsolicited LEASE from the peer stalls every request' % cname), \
+                                (ev.func.file, ev.line)
+        n_frames += seen
+        if seen:
+            rep.add('C14.f', '%s / only new requests are gated, only when leases are honoured' % h.name, where, ok,
+                    detail or 'of the %d frame enqueues on its paths none but a new request is held or consults the '
+                              'lease, and a request is held only behind a true honor_lease test' % seen)
+    if n_frames < 20 or n_held < 3:
+        raise AnalysisError('C14.f: %d enqueues / %d held requests found (vacuity guard)' % (n_frames, n_held))
+
+
+def rule_plumbing(ctx):
+    from . import plumbing
+    plumbing.rule_lease_drain(ctx, 'C14.d')
+    plumbing.rule_lease_wiring(ctx, 'C14.e')
+
+
 def rule_dispatch(ctx):
     """LEASE frames of the connection reach handle_lease (the method C14.d decides)."""
     from . import dispatch
@@ -364,4 +429,4 @@ def rule_dispatch(ctx):
 
 RULES = [('C14.a', rule_a), ('C14.b', rule_b), ('C14.c', rule_c), ('C14.d', rule_d), ('C14.e', rule_e),
          ('C08.g', rule_f),
-         ('C01.e', rule_dispatch)]
+         ('C14.f', rule_gate_scope), ('C14.d+C14.e', rule_plumbing), ('C01.e', rule_dispatch)]
